@@ -141,6 +141,7 @@ class CFG:
             if expr.value:
                 return [(n, ("cond", expr, True))], []
             return [], [(n, ("cond", expr, False))]
+        expr = _constant_right(expr)
         n = self._new("cond", expr, stmt)
         n.virtual = self._virtual_depth > 0
         self._connect(frontier, n)
@@ -473,6 +474,21 @@ def path_text(path: Optional[List[Edge]], limit: int = 12) -> List[str]:
     if len(out) > limit:
         out = out[: limit // 2] + ["..."] + out[-limit // 2 :]
     return out
+
+
+_MIRROR = {ast.Lt: ast.Gt, ast.Gt: ast.Lt, ast.LtE: ast.GtE, ast.GtE: ast.LtE, ast.Eq: ast.Eq, ast.NotEq: ast.NotEq}
+
+
+def _is_const(e: ast.AST) -> bool:
+    return isinstance(e, ast.Constant) or (isinstance(e, ast.UnaryOp) and isinstance(e.op, ast.USub) and isinstance(e.operand, ast.Constant))
+
+
+def _constant_right(expr: ast.AST) -> ast.AST:
+    """`0 >= x` is presented to the rules as `x <= 0`: one orientation for comparisons against a constant."""
+    if isinstance(expr, ast.Compare) and len(expr.ops) == 1 and type(expr.ops[0]) in _MIRROR and _is_const(expr.left) \
+            and not _is_const(expr.comparators[0]):
+        return ast.copy_location(ast.Compare(left=expr.comparators[0], ops=[_MIRROR[type(expr.ops[0])]()], comparators=[expr.left]), expr)
+    return expr
 
 
 class LocalDefs:
